@@ -509,6 +509,7 @@ func (vc *VC) resolveLoopShapes() {
 	}
 }
 
+var callsumRe = regexp.MustCompile(`callsum\("([^"]+)"\s*,\s*(\d+)\)`)
 var callsRe = regexp.MustCompile(`(?:calls|callarg)\("([^"]+)"(?:\s*,\s*[^,)]+\s*,\s*(\d+))?`)
 
 func (e *Engine) verifyFunction(fc *FuncContract) (*VC, error) {
@@ -529,10 +530,18 @@ func (e *Engine) verifyFunction(fc *FuncContract) (*VC, error) {
 	for _, lc := range fc.Loops {
 		texts = append(texts, lc.Invariants...)
 	}
+	for _, acs := range fc.AtCall {
+		texts = append(texts, acs...)
+	}
 	for _, t := range texts {
 		for _, m := range callsRe.FindAllStringSubmatch(t, -1) {
 			vc.eventNames[m[1]] = true
 			vc.eventCounter(m[1])
+		}
+		for _, m := range callsumRe.FindAllStringSubmatch(t, -1) {
+			vc.eventNames[m[1]] = true
+			vc.eventCounter(m[1])
+			vc.svDeclare(fmt.Sprintf("G_sum_%s_%s", sanitizeID(m[1]), m[2]), "Int")
 		}
 	}
 	for _, t := range texts {
